@@ -659,6 +659,8 @@ def _fold_from_bits(rf, ctx):
     in [0, 2^k) (ctx.int_ranges) — the magic-number identity of Hacker's Delight."""
     if rf.is_const():
         c = rf.const_value()
+        if c.denominator == 1 and int(c) in (2 ** 32 - 1, 2 ** 64 - 1):
+            return ctx.sym("mask:all-ones")  # the SIMD `true` lane (a NaN bit pattern as a float)
         if c.denominator == 1 and 0 <= c < 2 ** 64:
             return ctx.num(_float_of_bits(int(c)))
         return None
@@ -755,6 +757,9 @@ _PURE_MUT_METHODS = {"as_mut_ptr", "as_mut_slice", "as_mut", "deref_mut", "borro
 _WIDE_METHODS = {
     "splat": "id.", "cmp_eq": "cmp.==", "cmp_ne": "cmp.!=", "cmp_lt": "cmp.<", "cmp_le": "cmp.<=", "cmp_gt": "cmp.>", "cmp_ge": "cmp.>=",
     "blend": "select", "mul_add": "mul_add", "mul_sub": "mul_sub", "min": "fn1.min", "max": "fn1.max",
+    "pow_f32x4": "fn1.powf", "pow_f32x8": "fn1.powf", "pow_f64x2": "fn1.powf", "pow_f64x4": "fn1.powf",
+    # one-lane abstraction of horizontal reductions: `all`/`none` of a single lane
+    "all": "lane_all", "none": "lane_none", "any": "lane_all",
 }
 _FLOAT_METHODS = {
     "sqrt": "sqrt", "cbrt": "cbrt", "abs": "abs", "floor": "floor", "ceil": "ceil", "round": "round",
@@ -762,6 +767,23 @@ _FLOAT_METHODS = {
     "exp": "exp", "ln": "ln", "signum": "signum", "to_degrees": "rad2deg", "to_radians": "deg2rad",
     "trunc": "trunc", "fract": "fract", "log2": "log2", "log10": "log10", "exp2": "exp2",
 }
+
+
+class _Break(Exception):
+    def __init__(self, value):
+        self.value = value
+
+
+class _Continue(Exception):
+    pass
+
+
+def _const_ints(a, b):
+    if isinstance(a, RatFunc) and isinstance(b, RatFunc) and a.is_const() and b.is_const():
+        x, y = a.const_value(), b.const_value()
+        if x.denominator == 1 and y.denominator == 1:
+            return int(x), int(y)
+    return None
 
 
 class Frame:
@@ -1015,6 +1037,9 @@ class Evaluator:
             return self.ctx.sym(std0)
         if "v" in c:
             return self.scalar_const(c["v"])
+        mw = re.match(r"^wide::(?:<impl wide::)?(?:f32x4|f32x8|f64x2|f64x4)>?::(ONE|ZERO|HALF)$", path0)
+        if mw:
+            return self.ctx.num({"ONE": Fraction(1), "ZERO": Fraction(0), "HALF": Fraction(1, 2)}[mw.group(1)])
         bid = c.get("ri", c.get("i"))
         b = self.F.body_by_id.get(bid)
         path = self.S[c.get("r", c["d"])]
@@ -1212,8 +1237,16 @@ class Evaluator:
                 if op == "|":
                     return b_or(a, b)
                 return b_or(b_and(a, b_not(b)), b_and(b_not(a), b))
+            k = _const_ints(a, b)
+            if k is not None and min(k) >= 0:
+                return ctx.num({"&": k[0] & k[1], "|": k[0] | k[1], "^": k[0] ^ k[1]}[op])
             return ctx.sapp({"&": "bitand", "|": "bitor", "^": "bitxor"}[op], [a, b])
         if op in ("<<", ">>", "%"):
+            k = _const_ints(a, b)
+            if k is not None and min(k) >= 0 and op == ">>":
+                return ctx.num(k[0] >> k[1])
+            if k is not None and min(k) >= 0 and op == "%" and k[1] != 0:
+                return ctx.num(k[0] % k[1])
             return ctx.sapp({"<<": "shl", ">>": "shr", "%": "rem"}[op], [a, b])
         raise Opaque("binop %s" % op)
 
@@ -1278,7 +1311,12 @@ class Evaluator:
     def ev_match(self, e, fr):
         src = e.get("src", "")
         if src.startswith("ForLoopDesugar"):
-            return self.for_loop(e, fr)
+            self._loops = getattr(self, "_loops", [])
+            self._loops.append((None, None))  # `break`/`continue` inside a `for` never reach an enclosing concrete loop
+            try:
+                return self.for_loop(e, fr)
+            finally:
+                self._loops.pop()
         scrut = self.ev(e["e"], fr)
         arms = e["arms"]
         return self.match_arms(scrut, arms, 0, fr)
@@ -1411,6 +1449,17 @@ class Evaluator:
             if hi - lo > 64:
                 raise Opaque("range loop too long")
             it = Array([self.ctx.num(i) for i in range(lo, hi)])
+        if isinstance(it, MutRef) and isinstance(self.deref(it), Array):
+            # `for x in &mut array`: unroll with write-through per element
+            items = list(self.deref(it).items)
+            for i, x in enumerate(items):
+                r = ElemRef(None, None, x)
+                self.bind(pat, r, fr.env)
+                self.ev(body, fr)
+                if r.written:
+                    items[i] = r.cur
+            self.assign(it.target, Array(items), it.frame)
+            return UNIT
         if isinstance(it, Array):
             # constant-size array: unroll
             for x in it.items:
@@ -1443,7 +1492,23 @@ class Evaluator:
         return UNIT
 
     def ev_loop(self, e, fr):
-        raise Opaque("loop")
+        """`loop`/`while` whose control flow is concrete on every iteration (e.g. square-and-multiply on a constant exponent)."""
+        pc0 = fr.pc
+        self._loops = getattr(self, "_loops", [])
+        self._loops.append((fr, pc0))
+        try:
+            for _ in range(256):
+                try:
+                    self.ev(e["b"], fr)
+                except _Continue:
+                    continue
+                except _Break as br:
+                    return br.value
+                if fr.dead:
+                    return BOTTOM
+            raise Opaque("loop bound exceeded")
+        finally:
+            self._loops.pop()
 
     def ev_closure(self, e, fr):
         return Closure(e["params"], e["b"], fr)
@@ -1534,11 +1599,19 @@ class Evaluator:
                 return Struct(adtp, f)
         raise Opaque("field update on %r" % (base,))
 
+    def _concrete_loop(self, fr):
+        lp = getattr(self, "_loops", [])
+        return bool(lp) and lp[-1][0] is fr and lp[-1][1] is fr.pc and not fr.dead
+
     def ev_break(self, e, fr):
-        raise Opaque("break")
+        if self._concrete_loop(fr):
+            raise _Break(self.ev(e["e"], fr) if "e" in e else UNIT)
+        raise Opaque("break under a symbolic condition")
 
     def ev_continue(self, e, fr):
-        raise Opaque("continue")
+        if self._concrete_loop(fr):
+            raise _Continue()
+        raise Opaque("continue under a symbolic condition")
 
     def ev_letexpr(self, e, fr):
         raise Opaque("let expression")
@@ -1837,6 +1910,15 @@ class Evaluator:
                 return self.op_mul_add(args, fr, c, e)
             if kind == "float" and opn == "recip":
                 return self.binop("/", ctx.num(1), args[0])
+            if kind == "float" and opn == "is_nan":
+                return tree_map(lambda x: (x.kind == "NaN") if isinstance(x, FloatSpecial) else False, args[0])
+            if kind == "float" and opn == "copysign":
+                # copysign(a, b) = |a| * signum(b)   (signum(+-0) = +-1, as f32::signum)
+                return self.binop("*", ctx.sapp("abs", [args[0]]), ctx.sapp("signum", [args[1]]))
+            if kind == "float" and opn == "is_normal":
+                t = "f64" if "f64" in path else "f32"
+                ax = ctx.sapp("abs", [args[0]])
+                return b_and(ctx.cmp(">=", ax, ctx.sym(t + "::MIN_POSITIVE")), ctx.cmp("<=", ax, ctx.sym(t + "::MAX")))
             if kind == "float" and opn == "clamp":
                 return self.op_clamp(args, fr, c, e)
             if kind == "float" and opn == "hypot":
@@ -1848,6 +1930,8 @@ class Evaluator:
             if kind == "float" and opn == "sin_cos":
                 return Tuple([ctx.sapp("sin", args), ctx.sapp("cos", args)])
             if kind == "int":
+                if opn == "wrapping_neg" and isinstance(args[0], RatFunc) and args[0].is_const() and path.split("impl ")[-1].startswith("i"):
+                    return -args[0]
                 return ctx.sapp("int." + opn, args)
             return ctx.sapp(nm, args)
         if kind == "bin":
@@ -1859,6 +1943,12 @@ class Evaluator:
         if kind == "const":
             return ctx.num(Fraction(opn))
         raise Opaque("operator key %s" % key)
+
+    def op_lane_all(self, args, fr, c, e):
+        return self.as_bool(self.deref(args[0]))
+
+    def op_lane_none(self, args, fr, c, e):
+        return b_not(self.as_bool(self.deref(args[0])))
 
     def op_powi(self, args, fr, c, e):
         n = args[1]
@@ -2035,6 +2125,19 @@ class Evaluator:
                 if src.startswith(("std::option::Option<", "core::option::Option<")):
                     return v
                 return Struct(OPT_SOME, {"0": v})
+            # T -> Hue<T> (impl From<T> for hue newtypes, make_hues!): wrap
+            da = _adt_of_type(dst)
+            if da.startswith("hues::") and da in self.F.adt_by_path and not src.startswith("hues::") and isinstance(v, (RatFunc, Ite, Array)):
+                adt = self.F.adt_by_path[da]
+                if len(adt["variants"]) == 1 and [f["n"] for f in adt["variants"][0]["f"]] == ["0"]:
+                    return Struct(da, {"0": v})
+            # SIMD vector <-> array of its lanes, one-lane abstraction: the generic lane stands for every lane
+            if re.match(r"^wide::(f32x4|f32x8|f64x2|f64x4)$", src) and dst.startswith("[") and isinstance(v, (RatFunc, Ite)):
+                return Array([v])
+            if re.match(r"^wide::(f32x4|f32x8|f64x2|f64x4)$", dst) and src.startswith("[") and isinstance(v, Array) and len(v.items) == 1:
+                return v.items[0]
+            if re.match(r"^wide::(f32x4|f32x8|f64x2|f64x4)$", dst) and src in ("f32", "f64"):
+                return v  # splat
             # colour -> [T; N] and back (impl_array_casts!): declaration order of the fields
             if dst.startswith("[") and isinstance(v, Struct) and v.path in self.F.adt_by_path:
                 return Array(self.struct_components(v))
@@ -2094,6 +2197,9 @@ class Evaluator:
 
     def op_iter_zip(self, args, fr, c, e):
         a, b = args
+        if isinstance(a, Struct) and a.path.endswith("ops::RangeFrom") and isinstance(b, Array) and isinstance(a.fields.get("start"), RatFunc) and a.fields["start"].is_const():
+            s0 = int(a.fields["start"].const_value())
+            return Array([Tuple([self.ctx.num(s0 + i), y]) for i, y in enumerate(b.items)])
         if isinstance(a, IterV) and isinstance(b, IterV):
             return IterV(Tuple([a.elem, b.elem]))
         if isinstance(a, Array) and isinstance(b, Array) and len(a.items) == len(b.items):
@@ -2110,6 +2216,8 @@ class Evaluator:
 
     def op_into_iter(self, args, fr, c, e):
         if isinstance(args[0], (IterV, Array)):
+            return args[0]
+        if isinstance(args[0], MutRef) and isinstance(self.deref(args[0]), Array):
             return args[0]
         raise Opaque("into_iter of %r" % (args[0],))
 
@@ -2290,6 +2398,26 @@ class Evaluator:
         ta = [self.S[a] for a in c["a"]]
         if ta and ta[0].startswith(("core::marker::PhantomData", "std::marker::PhantomData")):
             return Struct("PhantomData", {})
+        if ta:
+            t = self.subst_ty(ta[0], fr)
+            if t == "Self" and e is not None:
+                t = self.subst_ty(self.F.ty(e) or "", fr)
+            m = re.match(r"^\[(.*); (\d+)\]$", t)
+            if m and int(m.group(2)) <= 16:
+                # array default with a concrete length: every slot holds the (unknown) default of the element type
+                return Array([self.ctx.sym("default<%s>" % m.group(1)) for _ in range(int(m.group(2)))])
+        return NotImplemented
+
+    def op_iter_enumerate(self, args, fr, c, e):
+        it = args[0]
+        if isinstance(it, Array):
+            return Array([Tuple([self.ctx.num(i), x]) for i, x in enumerate(it.items)])
+        return NotImplemented
+
+    def op_lanes_id(self, args, fr, c, e):
+        # FromScalarArray::from_array / IntoScalarArray::into_array on a vector modelled as the array of its lanes
+        if isinstance(args[0], Array):
+            return args[0]
         return NotImplemented
 
 
@@ -2401,6 +2529,9 @@ def _strip_crate(p):
 _STD_CONSTS = {
     "f32::consts::PI": "pi", "f64::consts::PI": "pi",
     "f32::EPSILON": "f32::EPSILON", "f64::EPSILON": "f64::EPSILON",
+    "f32::<impl f32>::MIN_POSITIVE": "f32::MIN_POSITIVE", "f64::<impl f64>::MIN_POSITIVE": "f64::MIN_POSITIVE",
+    "f32::<impl f32>::MAX": "f32::MAX", "f64::<impl f64>::MAX": "f64::MAX",
+    "f32::MIN_POSITIVE": "f32::MIN_POSITIVE", "f64::MIN_POSITIVE": "f64::MIN_POSITIVE", "f32::MAX": "f32::MAX", "f64::MAX": "f64::MAX",
 }
 
 # static / resolved def path -> operator key
@@ -2437,7 +2568,9 @@ for _t in ("std", "core"):
     _reg(["%s::cmp::PartialOrd::partial_cmp" % _t], "partial_cmp")
     _reg(["%s::borrow::Borrow::borrow" % _t, "%s::convert::AsRef::as_ref" % _t, "%s::ops::Deref::deref" % _t], "id.")
 
+_reg(["num::FromScalarArray::from_array", "num::IntoScalarArray::into_array"], "lanes_id")
 for _t in ("std", "core"):
+    _reg(["%s::iter::Iterator::enumerate" % _t], "iter_enumerate")
     _reg(["%s::iter::Iterator::zip" % _t], "iter_zip")
     _reg(["%s::iter::Iterator::map" % _t], "iter_map")
     _reg(["%s::iter::IntoIterator::into_iter" % _t], "into_iter")
